@@ -119,14 +119,18 @@ def _run_chunk(arg):
 
 def _worker_main(conn, prop_name, mem):
     _init_worker(prop_name, mem)
-    while True:
-        try:
-            task = conn.recv()
-        except EOFError:
-            return
-        if task is None:
-            return
-        conn.send(_run_chunk(task))
+    try:
+        while True:
+            try:
+                task = conn.recv()
+            except EOFError:
+                return
+            if task is None:
+                return
+            conn.send(_run_chunk(task))
+    finally:
+        from . import driver
+        driver.cleanup_now()
 
 
 def run_pool(prop_name, mem, chunk_iter, merge, total):
@@ -227,6 +231,18 @@ def load_findings():
 
 
 def run_property(prop_name, tier, seed, replay=None):
+    import tempfile
+    import shutil
+    base = "/dev/shm" if os.path.isdir("/dev/shm") and os.access("/dev/shm", os.W_OK) else None
+    root = tempfile.mkdtemp(prefix="pdpmc-run-", dir=base)
+    os.environ["PDPMC_SCRATCH_ROOT"] = root
+    try:
+        return _run_property(prop_name, tier, seed, replay)
+    finally:
+        shutil.rmtree(root, ignore_errors=True)
+
+
+def _run_property(prop_name, tier, seed, replay=None):
     t0 = time.time()
     prop = importlib.import_module("pdpmc.props." + prop_name)
     pid = prop.ID
